@@ -6,6 +6,7 @@ CONSTANTS
   NotifyMode = "token"
   TempApps = {}
   TwoPhaseApps = {}
+  DrainOnlyApps = {}
   ExitMode = "recheck"
 INVARIANTS FIFO DrainSound NoHang LockOK
 CHECK_DEADLOCK FALSE
